@@ -307,7 +307,10 @@ def rule_support_default(repo: Repo) -> List[Ob]:
                     good = (s.startswith("not ") and reach is True) or ("or not" in s and reach is True)
                     whole = any(isinstance(x, ast.Call) and call_name(x) == "is_implied_by_loop_guard" and is_self_attr(x.func.value, "condition", selfn) for x in ast.walk(t.ast))
                     partial = any(isinstance(x, ast.Call) and call_name(x) == "any" for x in ast.walk(t.ast))
-                    if not good or (not whole and partial):
+                    own = "default" in s and "variable" in s
+                    if good and whole and not own and mname == "get_support":
+                        bad.append(s + "  [the default may be skipped only when it is the variable itself: a renamed intermediate version takes over another variable's value while the guard is false]")
+                    elif not good or (not whole and partial):
                         bad.append(s + ("  [implied-ness of a single conjunct is not implied-ness of the condition]" if partial and not whole else ""))
                     elif not whole:
                         unknown.append(s)
